@@ -61,7 +61,7 @@ def _sum(a):
     return acc
 
 
-def _build(ctx, dim, grid, tag, E, u, reset, harness, k, c, h):
+def _build(ctx, dim, grid, tag, E, u, reset, harness, k, c, h, symbolise=True):
     _, _, sps, _ = sopht_modules()
     from sopht.simulator.immersed_body import ImmersedBodyFlowInteraction
 
@@ -73,25 +73,36 @@ def _build(ctx, dim, grid, tag, E, u, reset, harness, k, c, h):
         eul_grid_forcing_field=E, eul_grid_velocity_field=u, body_flow_forces=forces, body_flow_torques=torques, forcing_grid_cls=_stub_grid_cls(sps),
         virtual_boundary_stiffness_coeff=k, virtual_boundary_damping_coeff=c, dx=dx, grid_dim=dim, real_t=ctx.real_t, enable_eul_grid_forcing_reset=reset,
         num_lag_nodes=n, spacing=h, harness=harness)
-    # arbitrary prior state: every work array of the interactor and of its grid becomes symbolic / model-filled
-    names = ["lag_grid_position_mismatch_field", "lag_grid_velocity_mismatch_field", "lag_grid_forcing_field", "lag_grid_flow_velocity_field", "local_eul_grid_support_of_lag_grid", "interp_weights"]
-    for nm in names:
-        arr = getattr(inter, nm)
-        new = ctx.array(f"{tag}_{nm}", arr.shape)
-        if ctx.sym:
-            setattr(inter, nm, new)
-        else:
-            arr[...] = new
-    for nm in ("position_field", "velocity_field"):
-        arr = getattr(inter.forcing_grid, nm)
-        new = ctx.array(f"{tag}_grid_{nm}", arr.shape)
-        if ctx.sym:
-            setattr(inter.forcing_grid, nm, new)
-        else:
-            arr[...] = new
+    if symbolise:
+        symbolise_interactors(ctx, [inter], [tag])
     t0 = ctx.scalar(f"{tag}_t0")
     inter.time = t0
     return inter, forces, torques, dx
+
+
+WORK_ARRAYS = ["lag_grid_position_mismatch_field", "lag_grid_velocity_mismatch_field", "lag_grid_forcing_field", "lag_grid_flow_velocity_field", "local_eul_grid_support_of_lag_grid", "interp_weights"]
+
+
+def symbolise_interactors(ctx, inters, tags):
+    """arbitrary prior state for every work array of the interactors and of their grids.  All interactors are walked in ONE
+    pass of the object-graph walker, so arrays that share memory (within or ACROSS interactors) stay aliased."""
+    from symsopht import graph
+
+    def policy(path, arr):
+        if arr.dtype.kind in "iu":
+            return ("keep", None)
+        idx = int(path.split("[", 1)[1].split("]", 1)[0])
+        name = path.split(".")[-1]
+        if name in WORK_ARRAYS:
+            return ("fresh", f"{tags[idx]}_{name}")
+        if name in ("position_field", "velocity_field") and ".forcing_grid." in path:
+            return ("fresh", f"{tags[idx]}_grid_{name}")
+        return ("keep", None)
+
+    if ctx.sym:
+        graph.symbolise(list(inters), policy, name="obj")
+    else:
+        graph.fill_numeric(list(inters), policy, lambda n, d: ctx._num(n, d), name="obj")
 
 
 def _ref_interp(inter, u, dim, dx):
@@ -223,8 +234,9 @@ def two_bodies(ctx, dim, order, reset_second):
     E0 = E.copy()
     hs = [{"pos": LAYOUTS[dim][0].astype(ctx.real_t), "vel": ctx.array("vbA", (dim, 2))}, {"pos": LAYOUTS[dim][1].astype(ctx.real_t), "vel": ctx.array("vbB", (dim, 2))}]
     k, c = ctx.scalar("k", default=2.0), ctx.scalar("c", default=0.25)
-    A, *_ = _build(ctx, dim, grid, "A", E, u, False, hs[0], k, c, 0.1)
-    B, *_ = _build(ctx, dim, grid, "B", E, u, reset_second, hs[1], k, c, 0.1)
+    A, *_ = _build(ctx, dim, grid, "A", E, u, False, hs[0], k, c, 0.1, symbolise=False)
+    B, *_ = _build(ctx, dim, grid, "B", E, u, reset_second, hs[1], k, c, 0.1, symbolise=False)
+    symbolise_interactors(ctx, [A, B], ["A", "B"])
     dxv = 1.0 / grid[-1]
     XA, XB = A.lag_grid_position_mismatch_field.copy(), B.lag_grid_position_mismatch_field.copy()
     first, second = (A, B) if order == "AB" else (B, A)
@@ -257,6 +269,23 @@ def two_bodies(ctx, dim, order, reset_second):
             for cell, v in inc.items():
                 exp[cell] = exp[cell] + v
     ctx.eq_array("shared_forcing_field", E, exp)
+    # each body's own coupling state is untouched by the other body's evaluation, and its forcing step integrates ITS mismatch
+    VA = FA * 0
+    VB = FB * 0
+    IuA, IuB = _ref_interp(A, u, dim, dxv), _ref_interp(B, u, dim, dxv)
+    for a in range(dim):
+        for i in range(2):
+            VA[a, i] = IuA[a][i] - hs[0]["vel"][a, i]
+            VB[a, i] = IuB[a][i] - hs[1]["vel"][a, i]
+    ctx.eq_array("body_A_mismatch_survives_body_B_evaluation", A.lag_grid_velocity_mismatch_field, VA)
+    ctx.eq_array("body_B_mismatch_survives_body_A_evaluation", B.lag_grid_velocity_mismatch_field, VB)
+    ctx.eq_array("body_A_force_survives", A.lag_grid_forcing_field, FA)
+    ctx.eq_array("body_B_force_survives", B.lag_grid_forcing_field, FB)
+    dt = ctx.scalar("dt", default=0.02)
+    A.time_step(dt)
+    B.time_step(dt)
+    ctx.eq_array("body_A_integral_uses_its_own_mismatch", A.lag_grid_position_mismatch_field, XA + dt * VA)
+    ctx.eq_array("body_B_integral_uses_its_own_mismatch", B.lag_grid_position_mismatch_field, XB + dt * VB)
 
 
 def main():
